@@ -105,6 +105,17 @@ pub async fn history(cx: &mut Context<'_>, command: &HistoryCommand) -> Result<A
     // Before the total is computed, so a page count cannot report entries the
     // page itself will not contain (§104).
     visible_changes(cx, &mut rows).await;
+    if let Some(id) = &element {
+        // A transaction that touched this element together with one the caller
+        // may read survives the filter above on the strength of the other
+        // element. Narrowed to this one it would be an entry with no changes,
+        // which still says the element exists and when it was written (§103).
+        rows.retain(|row| {
+            row.changes
+                .iter()
+                .any(|change| change.get("id").and_then(Json::as_str) == Some(id.as_str()))
+        });
+    }
 
     let total = rows.len();
     let page: Vec<Json> = rows
